@@ -26,8 +26,11 @@ PROPS = {
 }
 # fault parameters of a headers message: 1 = the batch write fails; 20+j / 30+j = the j-th RollbackLastBlock call of the
 # message on the block-header / filter-header store fails (only explored where MaxFaults > 0)
-ALL_FAULTS = "{0, 1, 21, 22, 23, 31, 32, 33}"
+ALL_FAULTS = "{0, 1, 21, 22, 23, 31, 32, 33, 41, 42}"
 ROLLBACK_FAULTS = "{0, 21, 22, 23, 31, 32, 33}"
+# ... plus, for writeCFHeadersMsg: 40+j = the j-th FetchHeader / FetchHeaderAncestors call of the step on the block-header
+# store fails if the step makes it (the code makes one, before the write)
+ROLLBACK_READ_FAULTS = "{0, 21, 22, 23, 31, 32, 33, 41, 42}"
 CODE_VERSION = json.load(open(os.path.join(SPEC, "code_version.json")))
 CONFIGS = {
     "quick": [dict(universe="u1", MaxMsgs=3, MaxRestarts=0, MaxFaults=0, MaxCrashes=0)],
@@ -59,8 +62,12 @@ CONFIGS = {
     # cpdeep: 2- and 3-deep rollbacks to the previous checkpoint) and the reorganisation path (panics; universe deep:
     # 2- and 3-deep reorganisations).  Two events per history (plus the peer's connection in cpdeep).
     "qfaults": [dict(universe="cpdeep", MaxMsgs=2, MaxPeerEv=1, MaxRestarts=0, MaxFaults=1, MaxCrashes=0,
-                     FaultKinds=ROLLBACK_FAULTS),
+                     FaultKinds=ROLLBACK_READ_FAULTS),
                 dict(universe="deep", MaxMsgs=2, MaxRestarts=0, MaxFaults=1, MaxCrashes=0, FaultKinds=ROLLBACK_FAULTS)],
+    # quick slice of C19: a stored chain of several thousand blocks (one trunk id = a run of real headers, written
+    # straight into the stores), the backlog requested from every run boundary after every step, a short live part
+    # on top (headers, cfheaders, 1- and 2-deep reorganisations, an import of the next runs)
+    "qlong": [dict(universe="long", MaxMsgs=3, MaxPeerEv=1, MaxRestarts=0, MaxFaults=0, MaxCrashes=0)],
     "faults": [dict(universe="u1", MaxMsgs=3, MaxRestarts=0, MaxFaults=1, MaxCrashes=0),
                # the checkpoint-mismatch caller of rollBackToHeight (logs the error and carries on) with stored
                # headers to remove, and rollbacks three blocks deep: store-rollback failures only
@@ -101,7 +108,12 @@ MANIFEST = {
                      "emitted by every step (with the filter-store tip seen at delivery) and NotificationsSinceHeight(k) for every k "
                      "after every step are recorded; DisconnectEvents / ConnectEvents / EventOrder / BacklogExact are evaluated by TLC. "
                      "All tiers (quick: universes cpdeep and deep with two events; faults / thorough: all): the j-th RollbackLastBlock call of a headers message on the block-header or the "
-                     "filter-header store fails (j = 1..3): what an interrupted rollBackToHeight removed must have been announced.",
+                     "filter-header store fails (j = 1..3): what an interrupted rollBackToHeight removed must have been announced; "
+                     "the j-th FetchHeader / FetchHeaderAncestors call of writeCFHeadersMsg on the block-header store fails. "
+                     "Universe long (quick): stored chains of 2000 / 2001 / 4000 / 4001 / 4500 blocks (one model id = a run of real "
+                     "headers written straight into the stores), the backlog requested from every run boundary after every step "
+                     "(distances 0 .. 4502 from the filter tip incl. 1999 / 2000 / 2001 / 2002 / 3999 / 4000 / 4001 / 4002) and "
+                     "folded back into ids by the driver, with a short live part (headers, cfheaders, 1- and 2-deep reorganisation) on top.",
                 note=_COMMON_NOTE + " Filter-header writes are the tip/uncheckpointed form with true filter headers; checkpointed "
                      "batches with partial first intervals are exercised by the CFSync family.", design="4 C19",
                 technique="TLA+ spec + TLC exhaustive + spec-to-code replay of every transition + TLC-judged observed traces"),
@@ -115,6 +127,10 @@ ASSUMPTIONS = [
     "injected store errors (quick tier of C19: store-rollback failures in universes cpdeep / deep; faults / thorough tiers: "
     "all universes named there): one per history, returned by the driver's store wrapper without touching "
     "the store; a panic of the reorganisation path on such an error ends the process (only a restart follows)",
+    "universe long: one id of the trunk stands for a run of consecutive real headers; a run counts as present in a backlog only "
+    "if all its headers are there consecutively and in order; runs are written by import only (no cfheaders message, no "
+    "reorganisation reaches into the trunk); heights carried by backlog notifications are not compared",
+    "read faults of writeCFHeadersMsg: only FetchHeader / FetchHeaderAncestors calls on the block-header store are fault points",
     "quick tier: a peer that is not a full node (no SFNodeNetwork) connects only as the first event of a history, to a client "
     "that is current, as peer 2 advertising height 7; the thorough tier (universe u1l) has no such restriction",
 ]
@@ -155,7 +171,7 @@ def label(a):
     elif s == "DonePeer":
         s += "(p%d)" % a["p"]
     elif s == "WriteCF":
-        s += "(%d)" % a["k"]
+        s += "(%d%s)" % (a["k"], ";blockstore-read-call-%d-fails-if-made" % (a["p"] - 40) if a.get("p", 0) > 40 else "")
     elif s == "ImportReset":
         s += "(%s)" % "-".join(str(x) for x in a["batch"])
     if a.get("res") not in (None, "ok"):
@@ -288,6 +304,8 @@ def run(prop_id, tier, seed, replay=None):
             if tier == "quick" and prop_id == "C19":
                 # "every block header removed by a rollback is announced": rollbacks interrupted by a store error
                 cfgs = cfgs + CONFIGS["qfaults"]
+                # "the backlog ... is exactly the committed blocks above that height": thousands of blocks behind
+                cfgs = cfgs + CONFIGS["qlong"]
         runs = [run_one(prop_id, c, rng, os.path.join(sc, "r%d" % i), replay) for i, c in enumerate(cfgs)]
         rc = 0
         known = {}
